@@ -256,4 +256,78 @@ theorem run_sim (cfg : Cfg α) (hsync : cfg.sync = false) : ∀ (acts : List Act
       rw [execq_run_append]
       exact ih s' _ (step_sim cfg hsync s s' e a h hs)
 
+/-! ### blocking modes: `parser.Execute` is the `SyncExecutor` — `Execute(f)` calls `f()` inline and returns true
+
+There is no job list and no drainer: the goroutine that reads and parses is the one that runs the job, so it cannot
+complete the next request before the job has returned.  In `Pipeline` that is a discipline on the schedule:
+`parse` happens only while no job is pending. -/
+
+/-- the schedule respects the inline discipline from state `s` on: every `parse` finds the queue empty -/
+def inlineSched (cfg : Cfg α) : St α → List Act → Prop
+  | _, [] => True
+  | s, a :: as =>
+    (a = .parse → s.queue = []) ∧
+      (match step cfg s a with
+       | some s' => inlineSched cfg s' as
+       | none => inlineSched cfg s as)
+
+theorem step_queue_len (cfg : Cfg α) (s s' : St α) (a : Act) (hs : step cfg s a = some s')
+    (hp : a = .parse → s.queue = []) (hl : s.queue.length ≤ 1) : s'.queue.length ≤ 1 := by
+  cases a with
+  | parse =>
+    have hq := hp rfl
+    simp only [step] at hs
+    split at hs
+    · split at hs <;> (cases hs; simp [hq])
+    · cases hs
+  | start =>
+    simp only [step] at hs
+    split at hs
+    · split at hs
+      · cases hs; exact hl
+      · cases hs
+    · cases hs
+  | write k =>
+    simp only [step] at hs
+    split at hs
+    · split at hs
+      · cases hs; exact hl
+      · split at hs <;> (cases hs; exact hl)
+    · cases hs
+  | flush k =>
+    simp only [step] at hs
+    split at hs
+    · cases hs; exact hl
+    · cases hs
+  | finish =>
+    simp only [step] at hs
+    split at hs
+    · rename_i k q _ hq
+      cases hs
+      rw [hq] at hl
+      have h2 : q.length + 1 ≤ 1 := hl
+      show q.length ≤ 1
+      omega
+    · cases hs
+  | extClose =>
+    simp only [step] at hs
+    cases hs; exact hl
+
+theorem inline_queue_len (cfg : Cfg α) : ∀ (acts : List Act) (s : St α), inlineSched cfg s acts →
+    s.queue.length ≤ 1 → (run cfg s acts).queue.length ≤ 1 := by
+  intro acts
+  induction acts with
+  | nil => intro s _ hl; exact hl
+  | cons a as ih =>
+    intro s hi hl
+    obtain ⟨hp, hrest⟩ := hi
+    simp only [run]
+    cases hs : step cfg s a with
+    | none =>
+      rw [hs] at hrest
+      exact ih s hrest hl
+    | some s' =>
+      rw [hs] at hrest
+      exact ih s' hrest (step_queue_len cfg s s' a hs hp hl)
+
 end Pipeline
